@@ -8,10 +8,11 @@ import glob, json, os, shutil
 V = os.path.dirname(os.path.dirname(os.path.abspath(__file__)))
 res = json.load(open(os.path.join(V, "seeded", "results.json")))
 rows = []
-for vf in sorted(glob.glob("/tmp/mut/C*/m*/verified.json")):
+for vf in sorted(glob.glob("/tmp/mut/C*/m*/verified.json")) + sorted(glob.glob("/tmp/mut2/C*/m*/verified.json")):
     d = os.path.dirname(vf)
     ver = json.load(open(vf))
-    key = f"{d.split('/')[3]}-{os.path.basename(d)}"
+    rnd = "-r2" if d.startswith("/tmp/mut2/") else ""
+    key = f"{d.split('/')[3]}{rnd}-{os.path.basename(d)}"
     if not ver.get("kept"):
         print("not kept:", key, ver.get("demo_without_patch"), ver.get("demo_with_patch"), ver.get("suite_first_run"), ver.get("suite_failed_after_rerun_alone"))
         continue
